@@ -24,7 +24,7 @@ def key_fn(ev, clause):
     if ev['ev'] in ('bins', 'loc'):
         boundary = (ev['c'] - ev['b']) % ev['s'] == 0
         return '%s|%s|%s' % (clause, ev.get('src'), 'c-b_multiple_of_s' if boundary else 'other')
-    return '%s|create_count_table|%s' % (clause, 'sliding' if ev['s'] != ev['b'] else 'nosliding')
+    return '%s|create_count_table|%s|%s' % (clause, 'sliding' if ev['s'] != ev['b'] else 'nosliding', ev.get('shape', 'one'))
 
 
 def run(tier):
